@@ -19,7 +19,7 @@ class C10(TieCheck):
         "thorough tier, lengths 6..7: observations are compared through a 61-bit polynomial digest per 4-byte prefix (a differing block is expanded into per-string cases)",
     ]
     assumptions = [
-        "limits are naturals in the model (uint16 in Go); paramCnt (uint32) cannot wrap because it is compared with maxParams after every increment",
+        "limits are naturals in the model (uint16 in Go); the model's paramCnt cannot wrap; the implementation's counter width is exercised by patterns with 65535..131072 wildcards (CCount cases: too long for the model, checked against the theorem accepted_within_limit: accepted -> n = number of wildcards <= maxParams)",
         "the routable clause is proved for the routing model in the Route area; here it is checked on the implementation for every accepted pattern generated (single route, instantiated request)",
     ]
 
